@@ -474,6 +474,11 @@ func handleIndexIdentifier(n Expression, env *Environment, positions []indexAcce
 }
 
 func (i indexAccessor) Remove(container Object) Object {
+	if isUndefined(container) {
+		// removing a member of something that does not exist changes nothing
+		return UNDEFINED
+	}
+
 	switch c := container.(type) {
 	case *List:
 		pos, ok := i.val.(int64)
